@@ -267,12 +267,13 @@ def run(ctx):
         except BaseException as e:  # noqa: BLE001
             box["error"] = e
 
+    # (the worker pool is forked by this first map_jobs call, before the thread exists)
+    check_sigs(ctx, shapes, stubs, viol, stats)
+    ctx.log(f"signatures checked: {stats['signatures']}")
     th = threading.Thread(target=evaluate)
     th.start()
     check_circuits(ctx, prep, shapes, keep, viol, stats)
     ctx.log(f"enumerated circuits: {len(keep)} of {len(cases)} replayed, findings {len(viol)}")
-    check_sigs(ctx, shapes, stubs, viol, stats)
-    ctx.log(f"signatures checked: {stats['signatures']}")
     th.join()
     if "error" in box:
         raise box["error"]
